@@ -1,67 +1,19 @@
-"""Per-property configuration of the /verif checks (read by lib/driver.py)."""
+"""Per-property configuration of the /verif checks (read by lib/driver.py).
+
+Each property has its own file lib/checks.d/<ID>.py which is exec'd with the names below in
+scope and must assign CHECKS["<ID>"] = dict(...)."""
+import glob, os
 
 CHECKS = {}
 ALL_IDS = ["C%02d" % i for i in range(1, 21)]
 # property id -> reason, for properties that are deliberately not claimed
 NOT_APPLICABLE = {}
 
-CHECKS["C12"] = dict(
-    module="aspen",
-    pkg="internal/verif/c12",
-    packages=[("internal/verif/c12", "harness/aspen/c12")],
-    level="exploration",
-    rule=("rapid generates 2-4 gossip nodes with generated initial knowledge (incl. disjoint subsets and "
-          "non-running 'ghost' members at differing versions) and scripts of exchange(i->j, lost sync/ack/ack2), "
-          "heartbeat tick, state change, restart (fresh or stale persisted view) and fair rounds (every pair once, "
-          "generated order and direction); every script ends with a fair round. Oracle: per-node per-member "
-          "heartbeat monotonicity across each exchange, records equal to what the member published at that "
-          "heartbeat, identical complete views after a fair round. Non-trivial = a script containing an exchange "
-          "in which both sides were ahead of the other on different members; distinct by script hash."),
-    assumptions=["the three-message exchange is delivered synchronously by a harness transport; production timers and RandomPeer are not exercised",
-                 "a host changes its own record only together with a heartbeat increment (as production code does)"],
-    technique="model-based property testing (rapid): generated exchange/tick/restart/loss scripts against a monotonicity + published-record + convergence oracle",
-    level_text=("Generated-input search: thousands of gossip scripts over 2-4 real gossip.Gossip/store.Store instances wired by a "
-                "synchronous harness transport; each step is checked against an independent heartbeat order and the set of records "
-                "each member published. Sampled, not exhaustive; no absence claim."),
-    level_note="Trusted: the harness transport (synchronous call chain, loss of sync/ack/ack2), rapid, the Go toolchain. Production timers and random peer selection are outside the check.",
-    tests=[dict(name="TestC12", quick=dict(cases=20000, shards=2), thorough=dict(cases=150000, shards=16, timeout=1500))],
-)
-
+# shared building blocks
 CESIUM_PKGS = [("internal/verif/tsm", "harness/cesium/tsm"), ("internal/verif/cx", "harness/cesium/cx")]
 CESIUM_HOOKS = [("cesium/export_verif.go", "hooks/cesium/export_verif.go")]
 
-CHECKS["C01"] = dict(
-    module="cesium",
-    pkg="internal/verif/c01",
-    packages=CESIUM_PKGS + [("internal/verif/c01", "harness/cesium/c01")],
-    hooks=CESIUM_HOOKS,
-    level="exploration",
-    technique="model-based property testing (rapid): generated writer scripts against an in-memory timestamp->value reference map",
-    level_text=("Generated-input search against the M-TS reference model through the public cesium API on an in-memory filesystem: "
-                "every read (db.Read and manual iterator loops) after commits, at the end and after close+reopen must equal the model byte for byte. "
-                "Scripts are sampled; no absence claim."),
-    level_note="Trusted: the reference model (harness/cesium/tsm), x/io/fs MemFS as the storage medium, rapid. Auto-index (wall-clock) writers are excluded; one writer per index group at a time (contention is C05).",
-    rule=("rapid draws 1-2 index groups with 0-3 data channels (10 fixed + 3 variable-length types), a file-size cap from {16B..1KiB, default}, and <=40 operations "
-          "open(writer in a gap: before/between/after/adjacent; data-only writers on existing index samples)/write(1-40 samples, generated spacing)/commit/close/reopen/read. "
-          "Non-trivial = a script with >=2 commits on some channel and a read with a bound strictly inside stored data; distinct by script hash."),
-    assumptions=["writes obey the documented rules of writes (one series per writer channel, equal lengths, increasing timestamps >= start)",
-                 "a step that returns an error ends the script and is counted as discarded, not as a violation (the property conditions on successful writes)"],
-    tests=[dict(name="TestC01", quick=dict(cases=600, shards=4), thorough=dict(cases=5000, shards=16, timeout=2400))],
-)
-
-CHECKS["C04"] = dict(
-    module="cesium",
-    pkg="internal/verif/c04",
-    packages=CESIUM_PKGS + [("internal/verif/c04", "harness/cesium/c04")],
-    hooks=CESIUM_HOOKS,
-    level="exploration",
-    technique="model-based property testing (rapid) with a metamorphic GC relation: reads before GC == after GC == reference map minus deleted keys",
-    level_text=("Generated scripts of writes, time-range deletes with arbitrary bounds, synchronous GC passes (verif hook) and reopen; after every mutating step all channels "
-                "are read over derived ranges and compared with the reference map; an index delete must be refused while a dependant holds a sample in range; data files must not grow across GC. Sampled."),
-    level_note="Trusted: reference model, MemFS, the verif hook VerifGarbageCollect (calls the existing private pass synchronously). Deletes are issued only on groups without an open writer.",
-    rule=("C01 scripts extended with delete(1-3 channels, [a,b) drawn on/between samples, on domain ends, outside) and gc at thresholds {1e-4,0.2,1.0} with small file caps. "
-          "Non-trivial = a script with a delete that removed samples, a delete bound strictly between two stored samples, and a GC pass after which data files shrank; distinct by script hash."),
-    assumptions=["a refused or failed multi-channel delete may leave each named channel either untouched or with [a,b) removed (the property does not promise atomicity); the refused index channel itself must be unchanged",
-                 "when only a dependant's domain (not a sample) overlaps an index delete, either outcome is accepted"],
-    tests=[dict(name="TestC04", quick=dict(cases=500, shards=4), thorough=dict(cases=4000, shards=16, timeout=2400))],
-)
+_here = os.path.dirname(os.path.abspath(__file__))
+for _p in sorted(glob.glob(os.path.join(_here, "checks.d", "*.py"))):
+    with open(_p) as _f:
+        exec(compile(_f.read(), _p, "exec"))
